@@ -18,6 +18,8 @@ BadFar(t) == {i \in DOMAIN t.pts : t.bbits[i] = 1 /\ ~NearBd(E(t), Q(t.pts[i]), 
 \* the sampler may produce points off the boundary is property C01, judged by Trace_C01)
 OwnBad(t) == {j \in DOMAIN t.own : t.own[j].exc = "" /\ \E i \in DOMAIN t.own[j].bits :
                   t.own[j].bits[i] = 0 /\ NearBdBox(E(t), Q(t.own[j].pts[i]), Eps)}
+OwnBadShared(t) == \A j \in DOMAIN t.own : t.own[j].exc = "" => \A i \in DOMAIN t.own[j].bits :
+                      (t.own[j].bits[i] = 0 /\ NearBdBox(E(t), Q(t.own[j].pts[i]), Eps)) => LeafBdCount(E(t), Q(t.own[j].pts[i]), 2 * Eps) >= 2
 \* <<clause, deviation, number of judged interior points>>
 Check(t) ==
     IF "driver_error" \in DOMAIN t THEN <<"driver-error", "", 0>>
@@ -46,7 +48,9 @@ Check(t) ==
          ELSE IF BadFar(t) # {} THEN <<"boundary-accepts-far-point", "", nj>>
          ELSE IF \E j \in DOMAIN t.own : t.own[j].exc \in {"contains:AssertionError", "contains:RuntimeError", "contains:IndexError", "contains:TypeError", "contains:ValueError", "contains:hang"}
               THEN <<"boundary-contains-failed(own samples)", "", nj>>
-         ELSE IF OwnBad(t) # {} THEN <<"boundary-rejects-own-sample", "", nj>>
+         \* acknowledged deviation "bool_bd_shared_piece": every rejected own sample lies on the own boundaries of at least two
+         \* primitive operands -- there the Boolean boundary formulas consult the operands' tolerance-free interior tests
+         ELSE IF OwnBad(t) # {} THEN <<"boundary-rejects-own-sample", IF OwnBadShared(t) THEN "bool_bd_shared_piece" ELSE "", nj>>
          ELSE <<"ok", "", nj>>
 VARIABLE judged
 Init == tid \in 1..Len(Traces) /\ LET r == Check(Traces[tid]) IN verdict = r[1] /\ dev = r[2] /\ judged = r[3]
